@@ -109,7 +109,7 @@ def _problem(d, rng, extra, F, D, cond_max=4):
         xx = gen.hpd(rng, D, d.log10(0, 3), 1.0, (*extra, F))
     # same values behind another memory layout (transposed / Fortran / strided
     # views, leading axes stored in the other order)
-    return gen.vary(d, xx, 131), gen.vary(d, nn, 132), cond
+    return gen.vary(d, xx, 131), gen.vary(d, gen.structure(d, nn, 139), 132), cond
 
 
 def _run_name(d, ctx, core, ban):
